@@ -515,7 +515,9 @@ def gen_logger(rng, cap, kmax, count):
             if c < 0.25:
                 ops.append("LV %d" % rng.randint(0, 5))
                 continue
-            t += rng.choice([0, 0, 1, 999, 10 ** 6, 10 ** 6 - t % 10 ** 6, rng.randint(0, 3 * 10 ** 6)])
+            # mostly forward; sometimes the clock is stepped back (gettimeofday is not monotonic): the cache must be refreshed then too
+            t += rng.choice([0, 0, 1, 999, 10 ** 6, 10 ** 6 - t % 10 ** 6, rng.randint(0, 3 * 10 ** 6), -10 ** 6, -rng.randint(1, 3 * 10 ** 6)])
+            t = max(t, 10 ** 6)
             err = rng.choice([0, 0, 0, 2, 11, 13, 32, 104, 110, 9999])
             func = "-" if err or rng.random() < 0.5 else hexs(rng.choice([b"main", b"operator()", b"f", b"handleRead"]))
             level = rng.randint(0, 4)
@@ -774,6 +776,10 @@ def run(chk, replay=None):
     chk.cov["generator_histogram"] = hist
     chk.cov["exhaustive"] = True
     chk.cov["exhaustive_what"] = "all 65536 16-bit values (both signed and unsigned readings) through each of the 8 integer operators, against the model and snprintf"
+    if tier != "quick" and not replay:
+        chk.cov["exhaustive_what"] += ("; thorough: all 2^32 values of int and of unsigned through the real operator<< against snprintf (implementation side, "
+                                       "64 slices of 2^27), 2^20 strata per 32-bit-capable type against the model, 400000 random n + all boundary families "
+                                       "for formatSI/formatIEC, 8000 Logger cases, 1500 random capacity sequences")
     chk.cov["rule"] = ("evaluations = values streamed / lines logged / numbers formatted; cases: corpus, exhaustive 16-bit sweeps and stratified 32-bit sweeps "
                        "(thorough: all 2^32 for int/unsigned on the implementation against snprintf), boundary values (2^k, 10^k +-2, type limits, doubles at "
                        "decimal and %g switch boundaries), insertion sequences filling the buffer to capacity-50..+50 and to avail = kMaxNumericSize-6..+6, "
@@ -794,15 +800,20 @@ def run(chk, replay=None):
                 "translator lib/gen_consts.py + lib/gen_C17.py (clang 14 JSON AST): constants, digit tables, LogLevelName, fit tests, level gates, formatSI/IEC ladders",
                 "glibc snprintf/strerror_r/gmtime, Python's %d/%X/%.12g formatting and time.gmtime in the oracle",
                 "formatSI/formatIEC: width and accuracy are proved for ALL n about the model's exact arithmetic (C17_Model.rne: a rational rounded to nearest, "
-                "ties to even; to_double, div_double, fixed_scaled built on it). C17_binary64_semantics proves that to_double and div_double are Flocq's binary64 "
-                "rounding (round radix2 (FLT_exp (-1074) 53) ZnearestE) of the integer / of the exact real quotient; that the CPU and the compiler implement "
-                "IEEE-754 binary64 for static_cast<double>(int64_t) and operator/ (x86-64 SSE2, round-to-nearest mode, no -ffast-math), and that glibc's %.<p>f "
-                "prints the exact binary value correctly rounded to nearest even (fixed_scaled), are assumptions tested by the correspondence run (every rung "
-                "bound +-3, the neighbours at the spacing of doubles, F-9's range, decimal ties +-2, dense random n against the real functions)",
-                "axioms of Coq's real numbers, used ONLY by C17_binary64_semantics (via Flocq 4 and Coq.Reals; every other theorem of C17 is closed under the "
-                "global context): ClassicalDedekindReals.sig_not_dec, ClassicalDedekindReals.sig_forall_dec, "
+                "ties to even; to_double, div_double, fixed_scaled built on it). C17_binary64_semantics / C17_ieee754_bit_level prove that to_double, div_double "
+                "and the test on the double are Flocq's IEEE-754 binary64 operations (binary_normalize mode_NE, Bdiv mode_NE, Bltb on binary_float 53 1024, results "
+                "finite); C17_printf_fixed_spec proves that fixed_scaled is the specification of %.<p>f (the exact binary value rounded to the nearest multiple of "
+                "10^-p, ties to even: round radix10 (FIX_exp (-p)) ZnearestE). Assumed and only tested by the correspondence run (every rung bound +-3, the "
+                "neighbours at the spacing of doubles, F-9's range, decimal ties +-2, dense random n against the real functions): that CPU and compiler implement "
+                "IEEE-754 binary64 for static_cast<double>(int64_t), operator/ and operator< (x86-64 SSE2, round-to-nearest mode, no -ffast-math), and that "
+                "glibc's printf implements that %.<p>f specification",
+                "axioms of Coq's real numbers, used ONLY by C17_binary64_semantics, C17_ieee754_bit_level and C17_printf_fixed_spec (via Flocq 4 and Coq.Reals; "
+                "every other theorem of C17 is closed under the global context): ClassicalDedekindReals.sig_not_dec, ClassicalDedekindReals.sig_forall_dec, "
                 "FunctionalExtensionality.functional_extensionality_dep, Classical_Prop.classic",
-                "Flocq (installed under user-contrib/Flocq): Core.Generic_fmt.round, FLT_exp, ZnearestE as the definition of binary64 round-to-nearest-even")
+                "Flocq 4.1 (installed under user-contrib/Flocq): Core (round, FLT_exp, FIX_exp, ZnearestE) as the definition of rounding to nearest even, "
+                "IEEE754.BinarySingleNaN (binary_float, binary_normalize, Bdiv, Bltb and their correctness theorems) as the definition of binary64",
+                "Logger::Impl::formatTime: formats, lengths, refresh test and buffer sizes are regenerated from Logging.cc by lib/gen_C17.py and interpreted by the "
+                "model (mini_printf: %d, %<w>d, %0<w>d only); C17_logger_time_generated is the side condition tying them to the line shape")
 
     for c, f in known:
         chk.known(f.key, "key=%s %s" % (f.key, f.msg))
@@ -871,7 +882,9 @@ def run(chk, replay=None):
         "snprintf(\"%.12g\") yields at most 24 characters (Section hypothesis of C17_in_bounds / C17_line_shape; DESIGN 3.4)",
         "the broken-down time handed to the line model is TimeZone::toUtcTime/toLocalTime of the second (C20); the harness uses glibc gmtime as its stand-in",
         "that time stamp and thread id are the true ones is established by the harness only (call-window inequalities, gettid of the emitting thread, forked child)",
-        "formatSI/formatIEC: C17_si_width / C17_iec_width / C17_units_accurate hold for every 0 <= n < 2^63 of the model; its conversion and quotient are proved "
-        "to be IEEE-754 binary64 round-to-nearest-even (C17_binary64_semantics, Flocq); that the hardware/compiler compute exactly that and that glibc's %.<p>f is "
-        "correctly rounded is assumed (tested by the correspondence run, not proved)",
+        "formatSI/formatIEC: C17_si_width / C17_iec_width / C17_units_accurate / C17_significant_digits hold for every 0 <= n < 2^63 of the model; its conversion, "
+        "quotient and comparison are proved to be Flocq's IEEE-754 binary64 operations and its %.<p>f the correctly rounded decimal (C17_ieee754_bit_level, "
+        "C17_printf_fixed_spec); that the hardware/compiler compute exactly those and that glibc's printf meets that specification is assumed (tested, not proved)",
+        "C17_time_cache_partial: the zone is not changed between the lines of a thread and no line is stamped with second 0 of the epoch; the errno text is a C "
+        "string inside t_errnobuf (C17_line_fits); microseconds = time % 1000000 of a time stamp at or after the epoch (req_ok)",
         "the model is tied to the code by regenerated tables/guards and differential execution (testing), not by a verified C++ semantics"])
